@@ -400,7 +400,7 @@ def generate(repo):
     def pos(body, pat):
         m = re.search(pat, body)
         return m.start() if m else -1
-    p_find, p_erase, p_impl = pos(dbody, r"std::find\(\s*sandbox_list"), pos(dbody, r"sandbox_list\.erase"), pos(dbody, r"impl_destroy_sandbox\s*\(")
+    p_find, p_erase, p_impl = pos(dbody, r"std::(?:find|find_if|find_if_not)\s*\(\s*sandbox_list"), pos(dbody, r"sandbox_list\.erase"), pos(dbody, r"impl_destroy_sandbox\s*\(")
     # the UNIQUE guard that is in force at the lookup must still be in force at the erase: no scope of the guard's block
     # is closed, and no other guard is taken, between the acquisition and the erase
     guards = [m.start() for m in re.finditer(r"RLBOX_ACQUIRE_UNIQUE_GUARD\(\s*\w+\s*,\s*sandbox_list_lock\s*\)", dbody)]
